@@ -2,6 +2,7 @@
 
 #include "ambient.h"
 #include "statics.h"
+#include "vsched.h"
 
 #include <algorithm>
 #include <time.h>
@@ -22,6 +23,7 @@ JP Case::toJson() const {
     j->set("op", op.toJson(true));
     j->set("knobs", knobs.toJson());
     j->set("fillSeed", hex64(fillSeed));
+    if (retryAfter.kind != F_NONE) j->set("retry_after_failed_attempt", retryAfter.toJson());
     return j;
 }
 Case Case::fromJson(const JVal &j) {
@@ -29,6 +31,7 @@ Case Case::fromJson(const JVal &j) {
     if (JP o = j.get("op")) c.op = Op::fromJson(*o);
     if (JP k = j.get("knobs")) c.knobs = HeapKnobs::fromJson(*k);
     c.fillSeed = strtoull(j.gets("fillSeed", "0").c_str(), nullptr, 16);
+    if (JP ra = j.get("retry_after_failed_attempt")) c.retryAfter = FaultPlan::fromJson(*ra);
     return c;
 }
 
@@ -48,7 +51,32 @@ void afterLinkedHook(int64_t rc, void *user) {
 }
 }  // namespace
 
+// Every simulated execution runs on a thread created for it (pristine thread-local storage), so that executions
+// are independent of each other also with respect to per-thread state of the library; simExecSequence runs several
+// executions on ONE such thread, which is how "the call failed, the caller retries" is modelled.
+static thread_local bool tl_simInline = false;
+static ExecReport simExecBody(const Case &c, bool linkedAuditHook);
 ExecReport simExec(const Case &c, bool linkedAuditHook) {
+    if (tl_simInline) return simExecBody(c, linkedAuditHook);
+    ExecReport rep;
+    // a quarter of the fault-free executions run on a 512 KiB stack: recursion or stack arrays that grow with the input
+    // overflow there long before they overflow an 8 MiB main-thread stack
+    schedRunOnFreshThread(
+        [&]() {
+            tl_simInline = true;
+            rep = simExecBody(c, linkedAuditHook);
+        },
+        c.knobs.smallStack ? (size_t)512 << 10 : 0);
+    return rep;
+}
+static ExecReport simExecBody(const Case &c, bool linkedAuditHook) {
+    if (c.retryAfter.kind != F_NONE) {
+        // the failed first attempt, on this same thread; only what it leaves behind matters
+        Case first = c;
+        first.retryAfter = FaultPlan();
+        first.op.fault = c.retryAfter;
+        (void)simExecBody(first, false);
+    }
     ExecReport rep;
     staticsRestore();  // pristine library statics: executions are independent
     heapReset(c.knobs);
@@ -193,7 +221,11 @@ std::vector<Verdict> judgeC17(const Case &c, const Result &ref,
             v.push_back({"O5-differs-from-default-allocator",
                          "no allocation failed, yet result " + r.brief() +
                              " differs from default-allocator result " +
-                             ref.brief() + " (errno on entry " + std::to_string(entryErrnoFor(c.fillSeed)) + ", reference 0)",
+                             ref.brief() + " (errno on entry " + std::to_string(entryErrnoFor(c.fillSeed)) + ", reference 0)" +
+                             (c.retryAfter.kind != F_NONE
+                                  ? " [the call was made on the same thread right after the same call had been refused memory under " +
+                                        c.retryAfter.brief() + "]"
+                                  : std::string()),
                          0});
     }
     heapVerdicts(rep, v);
